@@ -7,7 +7,7 @@ CONSTANTS
   AllAmounts = FALSE
   BUG_Mask = FALSE
   MaxHist = 0
-INVARIANTS TypeOK
+INVARIANTS TypeOK Ring Agree
 VIEW View
 ACTION_CONSTRAINT EmitEdge
 CHECK_DEADLOCK FALSE
